@@ -37,7 +37,7 @@ func run(e *harness.Env) {
 	e.Assumptions = []string{
 		"Part 2 trusts tabula's PDF parsing and text positioning (C01/C08) to deliver the fragments: the reference is the list of fragments written into the PDF, their widths/heights are taken from tabula.Open(f).Fragments()",
 		"text.DetectDirection is used to label the direction of Part-1 input fragments exactly as text extraction would",
-		"tabula/layout is compiled with an overlay that makes its three tie-breaking range-over-map loops iterate in sorted key order (ascending and descending are both explored); with Go's randomized order the element tree of some pages differs from run to run (property C03), which would make cases unreplayable",
+		"tabula/layout is compiled with an overlay that makes its tie-breaking range-over-map loops (detectLeftMargin, detectDominantAlignment, detectBodyFontSize, …) iterate in sorted key order (ascending and descending are both explored); with Go's randomized order the element tree of some pages differs from run to run (property C03), which would make cases unreplayable",
 		"loss classes use pinned thresholds (5pt line, 50pt column, 10x5pt block), not tabula's configuration at run time",
 	}
 	e.Note("map_order_seam", "range-over-map sites of tabula/layout iterated in sorted order by the build overlay: "+mapOrderSites+"; both ascending and descending order are explored for APIs that run paragraph/heading detection")
